@@ -55,6 +55,10 @@ pub trait Obj: Send + Sync {
     fn callv(&self, _m: &str, _a: &[usize]) -> Value {
         json!([NA])
     }
+    /// further public methods outside the query traits (prefetch hints, line counts)
+    fn extra(&self, _m: &str, _a: &[usize]) -> i64 {
+        NA
+    }
     fn meta(&self) -> Value;
     fn mutate(&mut self, _ev: &Value) -> Option<Result<(), String>> {
         None
@@ -703,7 +707,7 @@ macro_rules! bv_like_calls {
             match m {
                 "get" => res_opt(self.get(a[0]).map(|b| b as usize)),
                 "get_unchecked" => res_val(unsafe { self.get_unchecked(a[0]) } as usize),
-                _ => NA,
+                _ => self.extra(m, a),
             }
         }
         fn callv(&self, m: &str, a: &[usize]) -> Value {
@@ -750,6 +754,16 @@ impl Obj for BitVector {
     bv_like_calls!();
     fn kind(&self) -> &'static str {
         "BV"
+    }
+    fn extra(&self, m: &str, a: &[usize]) -> i64 {
+        match m {
+            "n_lines" => res_val(self.n_lines()),
+            "prefetch_line" => {
+                self.prefetch_line(a[0]);
+                0
+            }
+            _ => NA,
+        }
     }
     fn convert(self: Box<Self>, m: &str) -> Option<Result<Box<dyn Obj>, String>> {
         match m {
@@ -813,11 +827,14 @@ impl Obj for BitVectorMut {
 }
 
 macro_rules! rs_bin_obj {
-    ($t:ident, $kind:expr, $has_len:tt) => {
+    ($t:ident, $kind:expr, $has_len:tt, $extra:ident) => {
         impl Obj for $t {
             bits_common!();
             fn kind(&self) -> &'static str {
                 $kind
+            }
+            fn extra(&self, m: &str, a: &[usize]) -> i64 {
+                $extra(self, m, a)
             }
             fn call(&self, m: &str, _c: u128, a: &[usize]) -> i64 {
                 match m {
@@ -831,7 +848,7 @@ macro_rules! rs_bin_obj {
                     "select0" => res_opt(self.select0(a[0])),
                     "select1_unchecked" => res_val(unsafe { self.select1_unchecked(a[0]) }),
                     "select0_unchecked" => res_val(unsafe { self.select0_unchecked(a[0]) }),
-                    _ => NA,
+                    _ => self.extra(m, a),
                 }
             }
             fn meta(&self) -> Value {
@@ -847,8 +864,27 @@ macro_rules! rs_bin_obj {
     (@len true, $s:expr) => { gi(|| res_val($s.bv_len())) };
     (@len false, $s:expr) => { NA };
 }
-rs_bin_obj!(RSNarrow, "RSN", false);
-rs_bin_obj!(RSWide, "RSW", true);
+rs_bin_obj!(RSNarrow, "RSN", false, rsn_extra);
+rs_bin_obj!(RSWide, "RSW", true, rsw_extra);
+
+pub fn rsn_extra(_x: &RSNarrow, _m: &str, _a: &[usize]) -> i64 {
+    NA
+}
+
+/// RSWide's prefetch hints (plain functions, not part of the query traits)
+pub fn rsw_extra(x: &RSWide, m: &str, a: &[usize]) -> i64 {
+    match m {
+        "prefetch_info" => {
+            x.prefetch_info(a[0]);
+            0
+        }
+        "prefetch_data" => {
+            x.prefetch_data(a[0]);
+            0
+        }
+        _ => NA,
+    }
+}
 
 macro_rules! darray_obj {
     ($s0:expr, $kind:expr) => {
